@@ -323,11 +323,14 @@ func init() {
 					at := cjAttr{path: r.pick([]string{"/", "/app", "/" + strings.Repeat("p", 40)}), secure: r.bool(), httpOnly: r.bool(),
 						sameSite: r.pick([]string{"", "lax", "strict", "none"}),
 						expire:   []time.Duration{0, 24 * time.Hour, 168 * time.Hour}[r.intn(3)]}
-					switch r.intn(3) {
+					switch r.intn(4) {
 					case 1:
 						at.domains = []string{"example.com"}
 					case 2:
 						at.domains = []string{"app.example.com", ".example.com", "other.test"}
+					case 3:
+						// nested domains, longest first (the order validation leaves): a host inside the longer one gets it — for setting AND deleting
+						at.domains = []string{"sub.app.example.com", "app.example.com", "example.com"}
 					}
 					host := r.pick(hosts)
 					copts := at.opts(name)
